@@ -403,6 +403,7 @@ def rewrite_fn(text, contract, report, make_pub=True):
         edits.append(Edit(st[body_open].end, st[body_open].end, "\n    proof { " + contract["prologue"].strip() + " }", "R5"))
     # loops
     loops = contract.get("loops", {})
+    loop_start_edits = []
     loop_idx = -1
     i = body_open + 1
     seen = []
@@ -425,6 +426,15 @@ def rewrite_fn(text, contract, report, make_pub=True):
                     break
                 j += 1
             seen.append(loop_idx)
+            for anchor, ghost, where_ in contract.get("at", []):
+                if where_ in ("loop_end", "loop_start") and anchor == loop_idx:
+                    g = ghost.strip()
+                    txt = (" " + g[4:].strip() + " ") if g.startswith("raw:") else (" proof { " + g + " } ")
+                    if where_ == "loop_end":
+                        jc = match_close(st, j)
+                        edits.append(Edit(st[jc].start, st[jc].start, txt, "R5"))
+                    else:
+                        loop_start_edits.append((st[j].end, txt))
             lc = loops.get(loop_idx)
             if lc:
                 chunk = ""
@@ -446,7 +456,11 @@ def rewrite_fn(text, contract, report, make_pub=True):
         if li not in seen:
             raise ExtractError(f"lost anchor: loop {li} of {contract['name']} not found")
     # ghost statements anchored at a text pattern inside the body ("at" entries)
+    for pos_, txt_ in loop_start_edits:
+        edits.append(Edit(pos_, pos_, "\n        /*ls*/" + txt_, "R5"))
     for anchor, ghost, where_ in contract.get("at", []):
+        if where_ in ("loop_end", "loop_start"):
+            continue
         pos = text.find(anchor, st[body_open].start)
         if pos < 0 or text.find(anchor, pos + 1) >= 0 and False:
             raise ExtractError(f"lost anchor in {contract['name']}: {anchor!r}")
